@@ -169,6 +169,8 @@ def gen_tuple(rng, idx):
         H = c + rng.choice([F(1, 1000), F(1, 4)])
     else:
         H = F(rng.randint(0, 80), 4)
+        if H >= close_time(size, 8, init, rate, cap):    # keep the number of visits small (k up to 7)
+            H = close_time(size, rng.randint(0, 7), init, rate, cap) + F(rng.randint(-2, 2), 8)
     kind = "valid"
     z = rng.random()
     if z < 0.06:
